@@ -24,7 +24,7 @@ import (
 	"verif/internal/model"
 )
 
-const rule = "cases: signed structures built by the independent model and signed with stdlib crypto - RouterInfo (Ed25519, DSA, P-256, P-384 identities), LeaseSet (DSA incl. NULL certificate, P-256, P-384, Ed25519, RedDSA), LeaseSet2 / MetaLeaseSet (library-documented layout) / EncryptedLeaseSet with and without offline block (identity types as above, transient types 0,1,2,7,11), standalone OfflineSignature - (one base in three is instead built and signed by the library's own constructors, so that a verifier that is lenient in the same way as the signer is exposed by the edits) x adversarial derivations: genuine; offline block with a random signature; offline block signed by another key of the identity's type (transplanted from another identity); outer signature random or made by an attacker key, or made by the prescribed key under another store-type prefix (0, 1, 2, 3, 5, 7, 255; for RouterInfo and LeaseSet: with a prefix prepended); field-level tampering after signing: the identity's certificate given more payload (NULL and KEY), an encryption key of an experimental / unassigned / ordinary type inserted, a lease / address / entry duplicated or dropped, and of an options mapping (pair with empty key or empty value added, pair appended / dropped / duplicated, order reversed, value changed - in RouterInfo options, address options, LeaseSet2 options, MetaLeaseSet options and entry properties); 1-3 byte-level edits (bit flips, byte sets, 2-byte field +-k, insertions, deletions, truncation, appended data) aimed at header, length, count, flag and key fields or anywhere. Before a tampered or edited encoding is judged, the genuine encoding it derives from is parsed and verified in the same process. Oracle: if the library parses the derived bytes and reports success, then (i) the strict model decodes exactly the consumed bytes, (ii) the outer signature verifies (crypto/ed25519, crypto/ecdsa, crypto/dsa) over prefix || consumed[:-sig] under the identity key, or under the transient key if flag bit 0 is set AND the offline block's signature verifies over expires||type||key under the identity key (blinded key for EncryptedLeaseSet). After a RouterInfo has verified, it is changed through the exported API (AddAddress, or the cost of an address through the pointer RouterAddresses() returns) and verified again: success must then hold over the value's new serialisation. Non-trivial: the derived input is not genuine and still parses; distinct by input bytes."
+const rule = "cases: signed structures built by the independent model and signed with stdlib crypto - RouterInfo (Ed25519, DSA, P-256, P-384 identities), LeaseSet (DSA incl. NULL certificate, P-256, P-384, Ed25519, RedDSA), LeaseSet2 / MetaLeaseSet (library-documented layout) / EncryptedLeaseSet with and without offline block (identity types as above, transient types 0,1,2,7,11), standalone OfflineSignature - (one base in three is instead built and signed by the library's own constructors, so that a verifier that is lenient in the same way as the signer is exposed by the edits) x adversarial derivations: genuine; offline block with a random signature; offline block signed by another key of the identity's type (transplanted from another identity); outer signature random or made by an attacker key, or made by the prescribed key under another store-type prefix (0, 1, 2, 3, 5, 7, 255; for RouterInfo and LeaseSet: with a prefix prepended); field-level tampering after signing: the identity's certificate given more payload (NULL and KEY), an encryption key of an experimental / unassigned / ordinary type inserted, a lease / address / entry duplicated or dropped, a mapping re-encoded with junk inside its declared size or with a repeated '=' / ';' delimiter (RouterInfo address options, LeaseSet2 options), and of an options mapping (pair with empty key or empty value added, pair appended / dropped / duplicated, order reversed, value changed - in RouterInfo options, address options, LeaseSet2 options, MetaLeaseSet options and entry properties); 1-3 byte-level edits (bit flips, byte sets, 2-byte field +-k, insertions, deletions, truncation, appended data) aimed at header, length, count, flag and key fields or anywhere. Before a tampered or edited encoding is judged, the genuine encoding it derives from is parsed and verified in the same process. Oracle: if the library parses the derived bytes and reports success, then (i) the strict model decodes exactly the consumed bytes, (ii) the outer signature verifies (crypto/ed25519, crypto/ecdsa, crypto/dsa) over prefix || consumed[:-sig] under the identity key, or under the transient key if flag bit 0 is set AND the offline block's signature verifies over expires||type||key under the identity key (blinded key for EncryptedLeaseSet). After a RouterInfo has verified, it is changed through the exported API (AddAddress, or the cost of an address through the pointer RouterAddresses() returns) and verified again: success must then hold over the value's new serialisation. Non-trivial: the derived input is not genuine and still parses; distinct by input bytes."
 
 func TestMain(m *testing.M) { ev.Main(m, "C05", rule) }
 
@@ -155,6 +155,42 @@ func tamperPairs(p []model.Pair, kind int) ([]model.Pair, bool) {
 	return out, false
 }
 
+// rawMapping re-encodes pairs as a mapping that a strict reader refuses but a lenient one may
+// skip over: kind 15 junk bytes after the last pair inside the declared size, kind 16 a
+// repeated '=' after a key, kind 17 a repeated ';' after a value (size field adjusted).
+func rawMapping(p []model.Pair, kind, which int) ([]byte, bool) {
+	var body []byte
+	ins := which % (len(p) + 1)
+	for i, kv := range p {
+		body = append(body, byte(len(kv.K)))
+		body = append(body, kv.K...)
+		body = append(body, '=')
+		if kind == 16 && i == ins%len(p) {
+			body = append(body, '=')
+		}
+		body = append(body, byte(len(kv.V)))
+		body = append(body, kv.V...)
+		body = append(body, ';')
+		if kind == 17 && i == ins%len(p) {
+			body = append(body, ';')
+		}
+	}
+	switch kind {
+	case 15:
+		body = append(body, model.Fill(1+which%9, uint64(which)+3)...)
+	case 16, 17:
+		if len(p) == 0 {
+			return nil, false
+		}
+	default:
+		return nil, false
+	}
+	if len(body) > 65535 {
+		return nil, false
+	}
+	return append([]byte{byte(len(body) >> 8), byte(len(body))}, body...), true
+}
+
 // tamper applies Case.Tamper to the encoding of a signed structure; the signature
 // stays what it was. ok=false: not applicable (nothing changed, not decodable).
 // tamper applies Case.Tamper to the encoding of a signed structure; the signature
@@ -195,6 +231,13 @@ func tamper(c Case, b []byte) ([]byte, bool) {
 			m.Addrs = append(m.Addrs, m.Addrs[0])
 		case kind == 13 && len(m.Addrs) > 0:
 			m.Addrs = m.Addrs[:len(m.Addrs)-1]
+		case kind >= 15 && kind <= 17 && len(m.Addrs) > 0:
+			i := (which / 2) % len(m.Addrs)
+			raw, ok := rawMapping(m.Addrs[i].Options, kind, which)
+			if !ok {
+				return b, false
+			}
+			m.Addrs[i].RawOptions = raw
 		case kind >= 9:
 			return b, false
 		case which%2 == 1 && len(m.Addrs) > 0:
@@ -252,6 +295,12 @@ func tamper(c Case, b []byte) ([]byte, bool) {
 			m.Leases = append(m.Leases, m.Leases[0])
 		case kind == 13 && len(m.Leases) > 0:
 			m.Leases = m.Leases[:len(m.Leases)-1]
+		case kind >= 15 && kind <= 17:
+			raw, ok := rawMapping(m.Options, kind, which)
+			if !ok {
+				return b, false
+			}
+			m.RawOptions = raw
 		case kind >= 9:
 			return b, false
 		default:
@@ -787,7 +836,7 @@ func genCase(t *rapid.T) Case {
 	}
 	c.LibSigned = rapid.IntRange(0, 2).Draw(t, "libsigned") == 0
 	if (c.Kind == "ri" || c.Kind == "ls2" || c.Kind == "meta" || c.Kind == "ls") && rapid.IntRange(0, 3).Draw(t, "tamper") == 0 {
-		c.Tamper = [2]int{rapid.IntRange(0, 40).Draw(t, "twhich"), rapid.IntRange(1, 14).Draw(t, "tkind")}
+		c.Tamper = [2]int{rapid.IntRange(0, 40).Draw(t, "twhich"), rapid.IntRange(1, 17).Draw(t, "tkind")}
 		if rapid.Bool().Draw(t, "tamperonly") {
 			c.SigMode = 0
 		}
